@@ -55,3 +55,8 @@ package html
 //@   no-unsync
 //@   allows @synced
 //@   tier thorough
+
+// C14: safety sweep of the page-assembly functions the property names.
+//@ sweep C14: getIndexLetter, surnameStartsWith, PublishHeader.WriteHTMLTo
+//@ sweep C14: IndividualPage.WriteHTMLTo, IndividualNameAndSex.WriteHTMLTo, IndividualAdditionalNames.WriteHTMLTo
+//@ sweep C14: EventDate.WriteHTMLTo
